@@ -310,19 +310,20 @@ func tags(c Case) []string {
 	if p.PadTo > 0 {
 		t = append(t, "array-destination")
 	}
-	ptrPrim := p.PtrPrim
+	ptrPrim, ptrPrimS := p.PtrPrim, p.PtrPrimS
 	if c.First != "" {
 		f := paths[pathIndex(c.First)]
-		ptrPrim = ptrPrim || f.PtrPrim
+		ptrPrim, ptrPrimS = ptrPrim || f.PtrPrim, ptrPrimS || f.PtrPrimS
 		t = append(t, fmt.Sprintf("%s:%s->%s", c.Mode, kindNames[f.Kind], kind))
 	}
 	if c.Handle != hFresh {
 		t = append(t, "handle="+c.Handle+"+"+kind)
 	}
-	if ptrPrim {
-		// input-side: the window the chain selects (by the reference model) holds a NULL
+	if ptrPrim || ptrPrimS {
+		// input-side: the window the chain selects (by the reference model) holds a
+		// NULL in the plucked column
 		for _, it := range c.Chain.expectFind() {
-			if it.C == nil {
+			if (ptrPrim && it.C == nil) || (ptrPrimS && sNull(it.ID)) {
 				t = append(t, "pluck-null-into-pointer-slice")
 				break
 			}
